@@ -24,7 +24,9 @@ RULE = (
     "(a) constants: widths 1..512 x boundary/random values x the three syntaxes (#b, #x, (_ bvN W)) through the real "
     "parse_const_value, the Lean model and the independent printers; malformed constants; "
     "(b) solver outputs: real yices-smt2 (halmos' flags and plain --smt2-model-format) and z3 run on small queries that force "
-    "known values on p_*/halmos_* variables of random widths, with and without an f_evm_ function in the model, the real solve_end_to_end + callback flow with --dump-smt-directory for same-named functions / restarting path ids / a rerun "
+    "known values on p_*/halmos_* variables of random widths, with and without an f_evm_ function in the model, guards `OP(x,c)==k && x CMP b` (SDIV/SMOD/SAR/SIGNEXTEND/DIV/MOD by powers of two and small constants, negative non-multiple "
+    "dividends) executed by the real SEVM, the failing path solved and labelled by the real loop, valid models and unsat verdicts judged "
+    "against an independent Yellow-Paper evaluation of the guard; the real solve_end_to_end + callback flow with --dump-smt-directory for same-named functions / restarting path ids / a rerun "
     "into the same directory (every valid model replayed on THIS path's conditions), plus synthetic "
     "outputs (layout/whitespace variants, piped names, short names, duplicates, junk, first-line variants) through the real "
     "from_result / parse_model_str / is_model_valid / _solve_end_to_end_callback vs the Lean model; a case is distinct by its text."
@@ -350,6 +352,118 @@ def correspond(ctx):
                 fctx.solving_ctx.executor.shutdown(wait=False)
             with contextlib.suppress(Exception):
                 fctx.solving_ctx.dump_dir.cleanup()
+
+    # signed / small-constant guards through the real SEVM instruction: `if (OP(x, c) == k && x CMP b) fail()`.  The failing path is solved
+    # with the real refinement loop; a model labelled valid must satisfy the guard under the Yellow-Paper semantics of the opcodes
+    # (evaluated independently of halmos' terms), and if some input does satisfy it the path must not be reported unsat.
+    M256 = 1 << 256
+
+    def sg(v):
+        v %= M256
+        return v - M256 if v >> 255 else v
+
+    def evm2(op, a, b):
+        a %= M256
+        b %= M256
+        if op == "SDIV":
+            if b == 0:
+                return 0
+            q = abs(sg(a)) // abs(sg(b))
+            return (-q if (sg(a) < 0) != (sg(b) < 0) else q) % M256
+        if op == "SMOD":
+            if b == 0:
+                return 0
+            r_ = abs(sg(a)) % abs(sg(b))
+            return (-r_ if sg(a) < 0 else r_) % M256
+        if op == "DIV":
+            return 0 if b == 0 else a // b
+        if op == "MOD":
+            return 0 if b == 0 else a % b
+        if op == "SAR":      # SAR(shift=b, value=a)
+            return (sg(a) >> min(b, 256)) % M256
+        if op == "SIGNEXTEND":   # SIGNEXTEND(b, x=a)
+            if b >= 31:
+                return a
+            bits = 8 * (b + 1)
+            lo = a % (1 << bits)
+            return (lo - (1 << bits) if lo >> (bits - 1) else lo) % M256
+        raise ValueError(op)
+
+    def cmp2(c, a, b):
+        return {"SLT": sg(a) < sg(b), "SGT": sg(a) > sg(b), "LT": a % M256 < b % M256, "GT": a % M256 > b % M256}[c]
+
+    guard_cases = [
+        ("SDIV", 4, -2, "SGT", -8), ("SDIV", 4, -2, "SLT", -8), ("SDIV", 2, -3, "SGT", -7), ("SDIV", 8, -1, "SLT", -14), ("SDIV", 8, 0, "SLT", -1),
+        ("SDIV", 1 << 255, 1, "SLT", 0), ("SDIV", 1 << 255, 0, "SLT", -5), ("SDIV", 1, -7, "SLT", 0), ("SDIV", -4, 2, "SLT", -8),
+        ("SMOD", 4, -3, "SLT", -4), ("SMOD", 8, -7, "SGT", -16), ("SMOD", 4, 1, "SLT", 0),
+        ("SAR", 2, -2, "SGT", -8), ("SAR", 2, -2, "SLT", -7), ("SAR", 255, -1, "SGT", -3), ("SAR", 1, -4, "SLT", -7),
+        ("SIGNEXTEND", 0, -1, "LT", 256), ("SIGNEXTEND", 0, -128, "LT", 300), ("SIGNEXTEND", 1, -2, "GT", 70000),
+        ("DIV", 4, 3, "GT", 13), ("MOD", 8, 5, "LT", 20), ("DIV", 1 << 255, 1, "SLT", -1),
+    ]
+    if ctx.tier != "quick":
+        for _ in range(60):
+            op = rng.choice(["SDIV", "SMOD", "SAR", "SDIV", "SMOD"])
+            c = rng.choice([1, 2, 4, 8, 16, 3, 5, 1 << 255, -2, -4]) if op != "SAR" else rng.choice([1, 2, 3, 8, 255])
+            xw = rng.randrange(-40, 40)
+            guard_cases.append((op, c, sg(evm2(op, xw, c)) + rng.choice([0, 0, 1]), rng.choice(["SLT", "SGT"]), xw + rng.choice([-1, 0, 1])))
+    eng1 = eng
+    for gi, (op, c, k, cmpop, b) in enumerate(guard_cases):
+        if ctx.tier == "quick" and gi % 2 != ctx.seed % 2 and gi > 3 and op in ("SIGNEXTEND", "DIV", "MOD"):
+            continue
+        xload = [("push", 0), "CALLDATALOAD"]
+        if op in ("SAR", "SIGNEXTEND"):
+            compute = xload + [("push", c % M256), op]                 # OP(c, x)
+            val = lambda xv: evm2(op, xv, c % M256)                    # noqa: E731
+        else:
+            compute = [("push", c % M256)] + xload + [op]              # OP(x, c)
+            val = lambda xv: evm2(op, xv, c)                           # noqa: E731
+        items = (compute + [("push", k % M256), "EQ", ("push", "L1"), "JUMPI", "STOP", ("label", "L1"), ("push", b % M256)] + xload
+                 + [cmpop, ("push", "FAIL"), "JUMPI", "STOP", ("label", "FAIL"), ("push", 0), ("push", 0), "REVERT"])
+        guard = lambda xv: val(xv) == k % M256 and cmp2(cmpop, xv, b)  # noqa: E731
+        witnesses = [xv for xv in list(range(-80, 81)) + [(1 << 255) + d for d in range(-3, 4)] + [b + d for d in (-2, -1, 1, 2)] if guard(xv % M256)]
+        desc = f"{op}(x,{sg(c)})=={k} && x {cmpop} {b}"
+        try:
+            exs = eng1.run(K.asm(items))
+        except Exception as e:
+            ctx.count(f"engine-error:{type(e).__name__}")
+            continue
+        failing = [ex for ex in exs if ex.context.output.error is not None]
+        for sname, scmd in (("yices", f"{yices} --smt2-model-format --bvconst-in-decimal"), ("z3", z3bin)):
+            if ctx.tier == "quick" and sname == "z3" and gi % 4:
+                continue
+            ctx.case(f"guard|{desc}|{sname}", nontrivial=True)
+            if not failing:
+                ctx.count(f"guard:{op}:no-failing-path:witness={bool(witnesses)}")
+                if witnesses:
+                    ctx.violation(f"counterexample-lost[{op}]", f"{desc}: x = {sg(witnesses[0])} reaches the failure on the EVM but halmos explores no failing path",
+                                  {"kind": "guard", "case": [op, str(c), k, cmpop, b]})
+                continue
+            gargs = eng.args(solver_command=scmd, solver_timeout_assertion=6.0)
+            gf = K.mk_function_ctx(gargs, "test", "G")
+            gpath = failing[0].path
+            gpc = K.path_ctx(gargs, gi, gf.solving_ctx, gpath.to_smt2(gargs))
+            gout = solve_end_to_end(gpc)
+            gf.call_sequences[gi] = ""
+            gh = CounterexampleHandler(ctx=gf, is_invariant=False, is_probe=False, flamegraph_enabled=False, potential_flamegraphs={}, submitted_futures=[])
+            gfut = Future()
+            gfut.set_result(gout)
+            with contextlib.redirect_stdout(io.StringIO()), contextlib.redirect_stderr(io.StringIO()):
+                gh._solve_end_to_end_callback(gfut, ex=None, path_ctx=gpc, description=None)
+            gkind = gout.result if isinstance(gout.result, str) else str(gout.result)
+            ctx.count(f"guard:{op}:{sname}:{gkind}:{'valid' if gf.valid_counterexamples else 'invalid' if gf.invalid_counterexamples else 'none'}:witness={bool(witnesses)}")
+            for m in gf.valid_counterexamples:
+                xs_ = [v.value for v in m.model.values() if v.full_name.startswith("p_x_")]
+                xv = xs_[0] if xs_ else 0
+                if not guard(xv):
+                    ctx.violation(f"valid-counterexample-does-not-reach-failure[{op}]",
+                                  f"{desc} ({sname}): x = {sg(xv)} is reported as a valid counterexample, but on the EVM {op} gives {sg(val(xv))} and the guard is false "
+                                  f"(path conditions {[str(cn)[:70] for cn in gpath.conditions]})", {"kind": "guard", "case": [op, str(c), k, cmpop, b], "x": str(xv)})
+            if gkind == "unsat" and witnesses:
+                ctx.violation(f"counterexample-lost[{op}]", f"{desc} ({sname}): x = {sg(witnesses[0])} reaches the failure on the EVM but the failing path's query is unsat "
+                                                            f"(path conditions {[str(cn)[:70] for cn in gpath.conditions]})", {"kind": "guard", "case": [op, str(c), k, cmpop, b]})
+            if gkind not in ("sat", "unsat"):
+                ctx.count(f"solver-timing:guard:{op}:{gkind}")
+            K.close_function_ctx(gf)
 
     # non-default --dump-smt-directory: same-named functions of different contracts and reruns share DIR/<function>/ and path ids
     # restart at 0.  Real solve_end_to_end + callback per path; every model routed to the valid list must satisfy THIS path's
